@@ -146,6 +146,82 @@ pub fn import_tail_body(prefix: &str, m: usize, witness: bool) {
     check_import(&buf[..n], [(0, bend), (bend + 1, bend + 2), (bend + 3, bend + 4), (bend + 5, bend + 6)], witness);
 }
 
+/// Direct-index replacements for `Piece::hash` / `Piece::score` (proved equal to the real ones
+/// for every piece and square by c04a_piece_key_pinned_to_file / c16a_piece_value_is_table_entry):
+/// the real look-ups go through `get_unchecked`, which costs the solver ~400 k clauses per call.
+pub fn stub_piece_hash(piece: Piece, pos: Position) -> u64 {
+    spec::KEY_SQUARE[square(pos)][piece_code(Some(piece)) as usize]
+}
+pub fn stub_piece_score(piece: Piece, pos: Position, scores: &[std::cell::Cell<&[i16; 64]>; 6]) -> i16 {
+    let t = [scores[0].get(), scores[1].get(), scores[2].get(), scores[3].get(), scores[4].get(), scores[5].get()];
+    spec::pst(&t, piece_code(Some(piece)), square(pos))
+}
+
+/// Light import check: position fields and hash only.
+fn check_import_light(text: &[u8], f: [(usize, usize); 4]) {
+    let s = unsafe { std::str::from_utf8_unchecked(text) };
+    let want = spec::parse_fen_fields(&text[f[0].0..f[0].1], &text[f[1].0..f[1].1], &text[f[2].0..f[2].1], &text[f[3].0..f[3].1]);
+    let got = Game::new(s);
+    match (&want, &got) {
+        (Some(p), Ok(game)) => {
+            let bits = game.verif_state_at(0).verif_bits();
+            assert!(bits == spec::state_byte(&p.castle, p.ep), "[C17] castling rights or e.p. file differ from what the text says");
+            assert!((game.player() == Player::White) == p.white_to_move, "[C17] side to move differs from what the text says");
+            assert!(game.hash() == spec::hash(p), "[C04] hash of an imported position is not the key-file hash of that position");
+        }
+        (Some(_), Err(_)) => assert!(false, "[C17] a well-formed FEN is refused"),
+        (None, Ok(_)) => assert!(false, "[C17] a malformed FEN is accepted"),
+        (None, Err(_)) => {}
+    }
+    std::mem::forget(got);
+}
+
+pub fn import_light_body(board: usize, side: &str, castling: &str, ep: &str, mask: u32) {
+    let mut buf = [b' '; 64];
+    let b = BOARDS[board].as_bytes();
+    let mut n = 0;
+    let mut i = 0;
+    while i < b.len() {
+        buf[n] = b[i];
+        n += 1;
+        i += 1;
+    }
+    let mut f = [(0usize, b.len()); 4];
+    let mut fi = 1;
+    let mut bit = 0;
+    for field in [side, castling, ep] {
+        n += 1;
+        let start = n;
+        let fb = field.as_bytes();
+        let mut k = 0;
+        while k < fb.len() {
+            buf[n] = if mask & (1 << bit) != 0 { any_visible_ascii() } else { fb[k] };
+            bit += 1;
+            n += 1;
+            k += 1;
+        }
+        f[fi] = (start, n);
+        fi += 1;
+    }
+    check_import_light(&buf[..n], f);
+}
+
+macro_rules! fenl_instance {
+    ($name:ident, $($arg:expr),*) => {
+        #[cfg_attr(kani, kani::proof)]
+        #[cfg_attr(kani, kani::unwind(40))]
+        #[cfg_attr(kani, kani::stub(std::backtrace::Backtrace::capture, stub_backtrace_capture))]
+        #[cfg_attr(kani, kani::stub(crate::chess::verif_hooks::Piece::hash, stub_piece_hash))]
+        #[cfg_attr(kani, kani::stub(crate::chess::verif_hooks::Piece::score, stub_piece_score))]
+        pub fn $name() {
+            import_light_body($($arg),*)
+        }
+    };
+}
+
+fenl_instance!(c17_light_concrete, 0, "w", "-", "-", 0);
+fenl_instance!(c17_light_epfile, 2, "b", "-", "d3", 0b0100);
+
 macro_rules! fen_instance {
     ($name:ident, $body:ident, $($arg:expr),*) => {
         #[cfg_attr(kani, kani::proof)]
